@@ -200,8 +200,8 @@ Definition simple_program (calls : list ccall) : bool :=
 
 Lemma simple_run : forall cls calls st, is_some (s_table st) = true ->
   existsb is_call_create calls = false -> existsb is_call_local calls = false -> existsb is_call_preserve calls = false ->
-  (count_calls is_call_pk calls + (if pk_truthy st then 1 else 0) <= 1)%nat ->
-  (count_calls is_call_fk calls + (if fk_truthy st then 1 else 0) <= 1)%nat ->
+  (count_calls is_call_pk calls + (if pk_set st then 1 else 0) <= 1)%nat ->
+  (count_calls is_call_fk calls + (if fk_set st then 1 else 0) <= 1)%nat ->
   (existsb is_call_sel calls = true -> existsb is_call_cols calls = false /\ nonempty (s_columns st) = false) ->
   (existsb is_call_cols calls = true -> is_some (s_as_select st) = false) ->
   exists st', run cls st calls = Ok st'.
@@ -215,13 +215,11 @@ Proof.
     simpl. rewrite (Hcols eq_refl). apply IH; simpl; auto.
     intros E. destruct (Hsel E). discriminate.
   - (* primary_key *)
-    simpl. match goal with |- context [if pk_truthy ?s then attr_err else _] => destruct (pk_truthy s) eqn:E end;
-      [exfalso; lia|]. apply IH; simpl; auto.
-    match goal with |- context [if ?b then 1 else 0] => destruct b end; lia.
+    unfold pk_set in Hpk. cbn [s_pk] in Hpk. destruct pk as [l|]; [simpl in Hpk; exfalso; lia|].
+    simpl. apply IH; simpl; auto. unfold pk_set. simpl. simpl in Hpk. lia.
   - (* foreign_key *)
-    simpl. match goal with |- context [if fk_truthy ?s then attr_err else _] => destruct (fk_truthy s) eqn:E end;
-      [exfalso; lia|]. apply IH; simpl; auto.
-    match goal with |- context [if ?b then 1 else 0] => destruct b end; lia.
+    unfold fk_set in Hfk. cbn [s_fk] in Hfk. destruct fk as [f|]; [simpl in Hfk; exfalso; lia|].
+    simpl. apply IH; simpl; auto. unfold fk_set. simpl. simpl in Hfk. lia.
   - (* as_select *)
     simpl. destruct (Hsel eq_refl) as [E1 E2]. simpl in E2. rewrite E2. apply IH; simpl; auto.
     intros E. congruence.
